@@ -50,5 +50,8 @@ for pid, p in props.items():
         extra += ("Also worth a look: the less common public entry points and options of the API, template-syntax corners documented in src/Template_syntax.rs, the interplay with Rust's own lexing "
                   "(raw strings, char literals, lifetimes, nested generics, closures, macros with unusual delimiters), arithmetic on lengths and indices, and places where two data structures "
                   "must stay in step (a map and its reverse map, a list and a counter, a buffer and its length). ")
+    if int(rnd) >= 7:
+        extra += ("Before you start, write down at least eight candidate ideas, discard the five that a person would think of first, and implement three of the remaining ones: "
+                  "the goal is changes unlike the usual suspects (not another off-by-one on a buffer size, not another 'compare sizes instead of contents', not another missing case conversion). ")
     open('/tmp/prompts%s/%s.txt' % (rnd, pid), 'w').write(tmpl.format(wt=wt, pid=pid, title=p['title'], statement=p['statement'], quant=p['quantifier']['text'], anchors=anchors, extra=extra))
 print("ok", len(props))
